@@ -87,6 +87,9 @@ pub struct EpCfg {
     /// reason string of this many bytes (optional properties the encoder drops when they do not fit the
     /// peer's Maximum Packet Size)
     pub ack_props: Option<(u16, u16)>,
+    /// server roles: the SUBSCRIBE handler publishes through the sink (QoS 1) and awaits the acknowledgement
+    /// before it answers - an application handler that depends on the connection's own outbound side
+    pub handler_sends: bool,
 }
 
 impl Default for EpCfg {
@@ -129,6 +132,7 @@ impl Default for EpCfg {
             svc_ready_fail_after: None,
             svc_slow_shutdown: false,
             ack_props: None,
+            handler_sends: false,
         }
     }
 }
